@@ -57,20 +57,24 @@ impl<'tcx> Cx<'tcx> {
         let root = sp.source_callsite();
         let lo = sm.lookup_char_pos(root.lo());
         let hi = sm.lookup_char_pos(root.hi());
-        let mac = if sp.from_expansion() {
+        let (mac, mcrate) = if sp.from_expansion() {
             let ed = sp.ctxt().outer_expn_data();
-            format!("{:?}", ed.kind)
+            (
+                format!("{:?}", ed.kind),
+                ed.macro_def_id.map(|d| self.tcx.crate_name(d.krate).to_string()).unwrap_or_default(),
+            )
         } else {
-            String::new()
+            (String::new(), String::new())
         };
         format!(
-            "{{\"file\":{},\"line\":{},\"col\":{},\"eline\":{},\"exp\":{},\"mac\":{}}}",
+            "{{\"file\":{},\"line\":{},\"col\":{},\"eline\":{},\"exp\":{},\"mac\":{},\"mcrate\":{}}}",
             esc(&format!("{}", lo.file.name.prefer_local_unconditionally())),
             lo.line,
             lo.col.0,
             hi.line,
             sp.from_expansion(),
-            esc(&mac)
+            esc(&mac),
+            esc(&mcrate)
         )
     }
     fn place(&self, p: &Place<'tcx>, body: &Body<'tcx>) -> String {
@@ -159,6 +163,15 @@ impl<'tcx> Cx<'tcx> {
         if let Const::Unevaluated(uv, _) = c.const_ {
             let _ = write!(s, ",\"named\":{}", esc(&self.path(uv.def)));
         }
+        if c.const_.try_eval_scalar_int(self.tcx, env).is_none() {
+            if let Some(b) = self.const_bytes(c, env) {
+                let hex: String = b.iter().map(|x| format!("{:02x}", x)).collect();
+                let _ = write!(s, ",\"pbytes\":{}", esc(&hex));
+                if let ty::Ref(_, inner, _) = ty.kind() {
+                    let _ = write!(s, ",\"pty\":{}", esc(&inner.to_string()));
+                }
+            }
+        }
         // string / byte-string literals
         let dbg = format!("{:?}", c.const_);
         if dbg.len() < 300 {
@@ -166,6 +179,49 @@ impl<'tcx> Cx<'tcx> {
         }
         s.push('}');
         s
+    }
+    /// bytes behind a constant reference (promoted `&TraceId(0)`, `&[u8; 6]`) or an in-memory constant
+    fn const_bytes(&self, c: &ConstOperand<'tcx>, env: TypingEnv<'tcx>) -> Option<Vec<u8>> {
+        use rustc_middle::mir::interpret::{GlobalAlloc, Scalar};
+        let tcx = self.tcx;
+        let ty = c.const_.ty();
+        let val = c.const_.eval(tcx, env, rustc_span::DUMMY_SP).ok()?;
+        let (alloc_id, off, sz) = match val {
+            ConstValue::Scalar(Scalar::Ptr(ptr, _)) => {
+                let inner = match ty.kind() {
+                    ty::Ref(_, inner, _) => *inner,
+                    _ => return None,
+                };
+                let lay = tcx.layout_of(env.as_query_input(inner)).ok()?;
+                if !lay.is_sized() {
+                    return None;
+                }
+                let (prov, off) = ptr.prov_and_relative_offset();
+                (prov.alloc_id(), off.bytes() as usize, lay.size.bytes() as usize)
+            }
+            ConstValue::Indirect { alloc_id, offset } => {
+                let lay = tcx.layout_of(env.as_query_input(ty)).ok()?;
+                (alloc_id, offset.bytes() as usize, lay.size.bytes() as usize)
+            }
+            ConstValue::Slice { alloc_id, meta } => (alloc_id, 0usize, meta as usize),
+            _ => return None,
+        };
+        if sz > 64 {
+            return None;
+        }
+        match tcx.try_get_global_alloc(alloc_id)? {
+            GlobalAlloc::Memory(a) => {
+                let inner = a.inner();
+                if off + sz > inner.len() {
+                    return None;
+                }
+                if !inner.provenance().ptrs().is_empty() {
+                    return None;
+                }
+                Some(inner.inspect_with_uninit_and_ptr_outside_interpreter(off..off + sz).to_vec())
+            }
+            _ => None,
+        }
     }
     fn operand(&self, o: &Operand<'tcx>, body: &Body<'tcx>, env: TypingEnv<'tcx>) -> String {
         match o {
